@@ -50,6 +50,9 @@ func init() {
 		if os.Getenv("DBGSHSL") != "" {
 			surveyShareSlice(p)
 		}
+		if os.Getenv("DBGDREAD") != "" {
+			surveyDirectRead(p)
+		}
 		if os.Getenv("DBGOVW") != "" {
 			surveyOverwritten(p)
 		}
@@ -636,6 +639,36 @@ func surveyShareSlice(p *Program) {
 					continue
 				}
 				fmt.Printf("SHARESLICE %s: %s: recv.%s = %s (root %T)\n", p.pos(st.Pos()), fname(f), fieldName(fa), descVal(st.Val), base)
+			}
+		}
+	}
+}
+
+// surveyDirectRead: direct calls of io.Reader.Read (not through io.ReadFull).
+func surveyDirectRead(p *Program) {
+	for f := range p.AllFuncs {
+		if f.Blocks == nil || !isCirclFunc(f) || !sourceFunc(f) {
+			continue
+		}
+		for _, b := range f.Blocks {
+			for _, in := range b.Instrs {
+				ci, ok := in.(ssa.CallInstruction)
+				if !ok {
+					continue
+				}
+				n := p.staticCalleeName(ci.Common())
+				if n != "invoke (io.Reader).Read" && !strings.HasSuffix(n, "crypto/rand.Read") {
+					continue
+				}
+				used := false
+				if v := ci.Value(); v != nil {
+					for _, r := range *v.Referrers() {
+						if ex, ok := r.(*ssa.Extract); ok && ex.Index == 0 && len(*ex.Referrers()) > 0 {
+							used = true
+						}
+					}
+				}
+				fmt.Printf("DIRECTREAD %s: %s: %s count-used=%v\n", p.pos(ci.Pos()), fname(f), n, used)
 			}
 		}
 	}
